@@ -273,6 +273,9 @@ func (r *FeatureLocal) CleanWriteApprovalCaches(ski string) {
 	r.muxResponseCB.Lock()
 	defer r.muxResponseCB.Unlock()
 
+	for _, timer := range r.pendingWriteApprovals[ski] {
+		timer.Stop()
+	}
 	delete(r.pendingWriteApprovals, ski)
 	delete(r.writeApprovalReceived, ski)
 }
